@@ -32,13 +32,13 @@ META = {
 
 
 def run(rep):
-    search(rep, MM, "MCSMatcher._search_subgraphs", "pattern", "host", "mappings", "best_size")
-    search(rep, MT, "MCSMatcher.find_common_subgraph", "G1", "G2", "self._mappings", "self._last_size")
+    rep.run(search, MM, "MCSMatcher._search_subgraphs", "pattern", "host", "mappings", "best_size")
+    rep.run(search, MT, "MCSMatcher.find_common_subgraph", "G1", "G2", "self._mappings", "self._last_size")
     for rel in (MM, MT):
         invert(rep, rel)
         mcs_mol(rep, rel)
-    edge_match(rep)
-    orientation(rep)
+    rep.run(edge_match)
+    rep.run(orientation)
 
 
 def search(rep, rel, q, P, H, RES, BEST):
